@@ -92,7 +92,8 @@ Choices ==
          \* negative start and step (the harness additionally scales the loop variable by a dyadic factor)
          \cup {[Node(0, "loop") EXCEPT !.form = "count", !.cnt = c, !.lv = "a", !.start = -2, !.step = -2] : c \in 2..3}
          \* <for var="a" data="1, 2, .., c">: the items are 1..c
-         \cup {[Node(0, "loop") EXCEPT !.form = "for", !.cnt = c, !.lv = "a", !.start = 1, !.step = 1] : c \in 1..3}
+         \* (c = 0: the empty list, which only a variable can hold - zero passes)
+         \cup {[Node(0, "loop") EXCEPT !.form = "for", !.cnt = c, !.lv = "a", !.start = 1, !.step = 1] : c \in 0..3}
          \* the count given by a variable which the body goes on to change
          \cup {[Node(0, "loop") EXCEPT !.form = "count", !.cond = RdV("b")]}
          \* ... with idx-var="b": the 0-based position of the item
@@ -102,6 +103,9 @@ Choices ==
          \cup {[Node(0, "leaf") EXCEPT !.rd = r, !.ref = p] : r \in {"a", "b"}, p \in {0, -1}}
          \cup {[Node(0, "var") EXCEPT !.asg = <<<<"b", e>>>>] : e \in {Lit(0), Inc("b")}}
          \cup {[Node(0, "if") EXCEPT !.cond = Lt("b", 2)]}
+         \* a test that reads the size of another element - one written before the <if>, or
+         \* after it (then the <if> waits for it, like any element with a forward reference)
+         \cup {[Node(0, "if") EXCEPT !.cond = Lit(v), !.ref = t] : v \in {0, 1}, t \in ExistingIds({"leaf"}) \cup ((Sz + 2)..MaxNodes)}
          \* conditions are "non-zero", not "positive": {{$b - 2}} is negative, zero, positive
          \cup {[Node(0, "if") EXCEPT !.cond = Sub("b", 2)],
                [Node(0, "loop") EXCEPT !.form = "while", !.cond = Sub("b", 2)],
@@ -184,7 +188,7 @@ Choices ==
     [] OTHER -> {}
 
 RECURSIVE HasRef(_), EscWrites(_), AllNodesOK(_)
-HasRef(nd) == (nd.k = "leaf" /\ nd.ref > 0)
+HasRef(nd) == (nd.k \in {"leaf", "if"} /\ nd.ref > 0)
               \/ (nd.k = "reuse")    \* a reuse may be retried when its target comes later
               \/ \E i \in 1..Len(nd.ch) : HasRef(nd.ch[i])
 EscWrites(nd) == nd.k \in {"var", "config"} \/ (nd.k = "loop" /\ nd.lv # "-")
@@ -208,6 +212,10 @@ DocOK ==
           /\ (n.k = "leaf" /\ n.ref > 0 /\ HasId(doc, n.ref)) =>
                  /\ NodeById(doc, n.ref).k \in {"leaf", "void"} /\ n.ref # n.id
                  /\ NodeById(doc, n.ref).ref # -1
+          \* the test of an <if> reads a plain, always-registered shape outside the <if> itself
+          /\ (n.k = "if" /\ n.ref > 0 /\ HasId(doc, n.ref)) =>
+                 /\ NodeById(doc, n.ref).k = "leaf" /\ NodeById(doc, n.ref).ref = 0
+                 /\ n.ref \in RegStatic(doc) /\ ~HasId(n.ch, n.ref)
           /\ (n.k = "reuse" /\ HasId(doc, n.href)) => NodeById(doc, n.href).k \in {"leaf", "g"}
           /\ (n.k = "reuse" /\ HasId(doc, n.href)) => n.href \in RegStatic(doc)
           \* a positioned reuse: of a plain shape template, against a plain shape that is
@@ -469,12 +477,19 @@ ConfigApply ==
     /\ stack' = SetTopFrame([Top EXCEPT !.ph = "exit"])
     /\ UNCHANGED <<doc, lim0, phase, ret, depth, scopes, emap, omap, inSpecs, rng, result, out, gx, px, passes>>
 
+\* (a test that reads an element not yet positioned cannot be evaluated: the <if> fails
+\* for now and is retried - it is NOT taken for false)
 IfTest ==
     /\ Body("if")
-    /\ IF EvalE(Top.nd.cond, scopes) # 0
-       THEN stack' = Append(SetTopFrame([Top EXCEPT !.ph = "wait"]), NewPe(Top.nd.ch))
-       ELSE stack' = SetTopFrame([Top EXCEPT !.ph = "exit"])
-    /\ UNCHANGED <<doc, lim, lim0, phase, ret, depth, scopes, emap, omap, inSpecs, rng, result, out, gx, px, passes>>
+    /\ LET t == Top.nd.ref
+           st == IF t <= 0 \/ t \notin Ids THEN "none" ELSE emap[t]
+       IN IF t > 0 /\ st # "done"
+          THEN FailWith("ref")
+          ELSE /\ IF EvalE(Top.nd.cond, scopes) # 0
+                  THEN stack' = Append(SetTopFrame([Top EXCEPT !.ph = "wait"]), NewPe(Top.nd.ch))
+                  ELSE stack' = SetTopFrame([Top EXCEPT !.ph = "exit"])
+               /\ UNCHANGED <<ret, depth, scopes, inSpecs>>
+    /\ UNCHANGED <<doc, lim, lim0, phase, emap, omap, rng, result, out, gx, px, passes>>
 
 IfDone ==
     /\ Wait("if", "ok")
